@@ -14,6 +14,7 @@ def run(ck):
         extra(ck, w)
     s1_sponge_twins(ck, w)
     s2_varlen_alignment(ck, w)
+    k1_constants(ck, w)
 
 
 CHIP = '<midnight_circuits::hash::poseidon::poseidon_chip::PoseidonChip as midnight_circuits::instructions::sponge::SpongeInstructions<midnight_proofs::circuit::AssignedCell, midnight_proofs::circuit::AssignedCell>>::'
@@ -130,3 +131,19 @@ def s2_varlen_alignment(ck, w):
         ck.record('C07.S2', f'{f["_nid"]}:asserts-alignment', ok, 'asserts MAX_LEN % block == 0',
                   f'{f["_nid"]} does not assert that the buffer size is a multiple of its block size: for other sizes it silently hashes the wrong cells',
                   f'{f["file"]}:{f["line"]}')
+
+
+def k1_constants(ck, w, rule='C07.K1'):
+    """the constant tables of the hash chips satisfy the definitions of their standards"""
+    from ..engines import consteq
+    ck.rule(rule, 'constant tables (values computed by the compiler\'s const evaluator, nothing is run): SHA-256 / SHA-512 round constants and initial values are the '
+                  'fractional parts of the cube / square roots of the first primes (FIPS 180-4); RIPEMD-160: K = 2^30 * sqrt(2, 3, 5, 7), K\' = 2^30 * cbrt(2, 3, 5, 7), the '
+                  'initial value, the message-word selections r = rho^k and r\' = rho^k pi (pi(i) = 9i + 5 mod 16), and the rotation amounts of both lines are '
+                  'functions of (round, message word) — one table read off (s, r) explains (s\', r\').  A wrong entry changes the digest of exactly the messages '
+                  'that exercise it.')
+    consts = consteq.load(w, 'circuits')
+    n = 0
+    for cid, ok, detail, loc in consteq.sha2_equations(consts) + consteq.ripemd_equations(consts):
+        n += 1
+        ck.record(rule, cid, ok, detail, f'{cid} does not satisfy its definition ({detail}): the gadget no longer computes the standard function', loc)
+    ck.floor(rule, 'hash constant tables', n, 10)
